@@ -35,12 +35,52 @@ type object struct {
 	b     []byte
 }
 
+// mcase is one mutation of one object's encoding (the struct is reused by the enumeration; copy it to keep it).
 type mcase struct {
 	obj   int
 	class string // trunc | byte | varuint | u64 | varuint+cut | u64+cut
 	off   int
-	what  string
-	build func() []byte
+	w     int // width of the replaced var-uint
+	rep   byte
+	bv    bigv
+	b     []byte
+}
+
+func (m *mcase) build() []byte {
+	b := m.b
+	switch m.class {
+	case "trunc":
+		return b[:m.off:m.off]
+	case "byte":
+		x := append([]byte{}, b...)
+		x[m.off] = m.rep
+		return x
+	case "varuint":
+		return splice(b, m.off, m.w, varuint(m.bv.v))
+	case "varuint+cut":
+		return splice(b[:m.off+m.w], m.off, m.w, varuint(m.bv.v))
+	case "u64":
+		return splice(b, m.off, 8, u64le(m.bv.v))
+	case "u64+cut":
+		return splice(b[:m.off+8], m.off, 8, u64le(m.bv.v))
+	}
+	panic("bad class")
+}
+
+func (m *mcase) what() string {
+	switch m.class {
+	case "trunc":
+		return fmt.Sprintf("truncate to %d of %d bytes", m.off, len(m.b))
+	case "byte":
+		return fmt.Sprintf("byte@%d=%#02x", m.off, m.rep)
+	case "varuint":
+		return fmt.Sprintf("var-uint@%d=%s", m.off, m.bv.name)
+	case "varuint+cut":
+		return fmt.Sprintf("var-uint@%d=%s, cut behind it", m.off, m.bv.name)
+	case "u64":
+		return fmt.Sprintf("u64@%d=%s", m.off, m.bv.name)
+	}
+	return fmt.Sprintf("u64@%d=%s, cut behind it", m.off, m.bv.name)
 }
 
 // objects: representative encodings of every type (production regime). quick: zero / typical / max vector (+ the
@@ -111,8 +151,8 @@ type bigv struct {
 	name string
 }
 
-func bigValues(rem int) []bigv {
-	return []bigv{{uint64(rem) + 1, "remaining+1"}, {0xFFFF, "0xFFFF"}, {1 << 32, "2^32"}, {1 << 40, "2^40"}, {1 << 62, "2^62"}, {1 << 63, "2^63"}, {^uint64(0), "2^64-1"}}
+func bigValues(rem int) [7]bigv {
+	return [7]bigv{{uint64(rem) + 1, "remaining+1"}, {0xFFFF, "0xFFFF"}, {1 << 32, "2^32"}, {1 << 40, "2^40"}, {1 << 62, "2^62"}, {1 << 63, "2^63"}, {^uint64(0), "2^64-1"}}
 }
 
 func splice(b []byte, off, width int, repl []byte) []byte {
@@ -124,41 +164,39 @@ func splice(b []byte, off, width int, repl []byte) []byte {
 
 // forEachCase: the whole 1-deviation space. Count / length prefixes are not located by a reference parser: the splice
 // is applied AT EVERY OFFSET (to the var-uint that starts there as the decoder would read it, and to the 8 bytes there
-// as a u64), which is a superset of the real prefix positions.
+// as a u64), which is a superset of the real prefix positions; each splice also with the input cut right behind it
+// (the shortest reproduction of an unchecked count).
 func forEachCase(objs []object, f func(i int, c *mcase)) int {
 	i := 0
-	emit := func(c *mcase) { f(i, c); i++ }
+	var m mcase
+	emit := func() { f(i, &m); i++ }
+	var widths [256]int
+	for x := range widths {
+		widths[x] = 1
+	}
+	widths[0xFD], widths[0xFE], widths[0xFF] = 3, 5, 9
 	for oi := range objs {
 		b := objs[oi].b
 		L := len(b)
 		for t := 0; t < L; t++ {
-			t := t
-			emit(&mcase{obj: oi, class: "trunc", off: t, what: fmt.Sprintf("truncate to %d of %d bytes", t, L), build: func() []byte { return b[:t:t] }})
+			m = mcase{obj: oi, class: "trunc", off: t, b: b}
+			emit()
 		}
 		for off := 0; off < L; off++ {
-			off := off
-			for _, rep := range []byte{b[off] ^ 0x01, b[off] ^ 0x80, 0x00, 0xFF} {
+			for _, rep := range [4]byte{b[off] ^ 0x01, b[off] ^ 0x80, 0x00, 0xFF} {
 				if rep == b[off] {
 					continue
 				}
-				rep := rep
-				emit(&mcase{obj: oi, class: "byte", off: off, what: fmt.Sprintf("byte@%d=%#02x", off, rep), build: func() []byte {
-					m := append([]byte{}, b...)
-					m[off] = rep
-					return m
-				}})
+				m = mcase{obj: oi, class: "byte", off: off, rep: rep, b: b}
+				emit()
 			}
-			w := map[byte]int{0xFD: 3, 0xFE: 5, 0xFF: 9}[b[off]]
-			if w == 0 {
-				w = 1
-			}
-			if off+w <= L {
-				w := w
+			if w := widths[b[off]]; off+w <= L {
 				for _, bv := range bigValues(L - off - w) {
-					bv := bv
-					emit(&mcase{obj: oi, class: "varuint", off: off, what: fmt.Sprintf("var-uint@%d=%s", off, bv.name), build: func() []byte { return splice(b, off, w, varuint(bv.v)) }})
-					if bv.name != "remaining+1" { // the same blown-up prefix with nothing behind it (also the shortest reproduction)
-						emit(&mcase{obj: oi, class: "varuint+cut", off: off, what: fmt.Sprintf("var-uint@%d=%s, cut behind it", off, bv.name), build: func() []byte { return splice(b[:off+w], off, w, varuint(bv.v)) }})
+					m = mcase{obj: oi, class: "varuint", off: off, w: w, bv: bv, b: b}
+					emit()
+					if bv.name != "remaining+1" {
+						m = mcase{obj: oi, class: "varuint+cut", off: off, w: w, bv: bv, b: b}
+						emit()
 					}
 				}
 			}
@@ -167,10 +205,11 @@ func forEachCase(objs []object, f func(i int, c *mcase)) int {
 					if bv.name == "0xFFFF" || bv.name == "2^63" {
 						continue
 					}
-					bv := bv
-					emit(&mcase{obj: oi, class: "u64", off: off, what: fmt.Sprintf("u64@%d=%s", off, bv.name), build: func() []byte { return splice(b, off, 8, u64le(bv.v)) }})
+					m = mcase{obj: oi, class: "u64", off: off, bv: bv, b: b}
+					emit()
 					if bv.name != "remaining+1" {
-						emit(&mcase{obj: oi, class: "u64+cut", off: off, what: fmt.Sprintf("u64@%d=%s, cut behind it", off, bv.name), build: func() []byte { return splice(b[:off+8], off, 8, u64le(bv.v)) }})
+						m = mcase{obj: oi, class: "u64+cut", off: off, bv: bv, b: b}
+						emit()
 					}
 				}
 			}
@@ -208,8 +247,12 @@ func decodeMutant(o *object, mc *mcase, in []byte) (accepted bool, note string) 
 	if err != nil {
 		return false, ""
 	}
-	if mc.class == "trunc" && (c.truncOK == nil || !c.truncOK(o.p.Interface(), o.b, mc.off)) {
-		note = "truncated-input-accepted"
+	if mc.class == "trunc" {
+		if c.truncOK == nil || !c.truncOK(o.p.Interface(), o.b, mc.off) {
+			note = "truncated-input-accepted"
+		} else {
+			note = "info:truncation-inside-ExtraInfo-tail-accepted(documented)"
+		}
 	}
 	want := deepCopy(q)
 	raw, eerr := c.enc(q)
@@ -236,6 +279,8 @@ func atoi(s string) int { v, _ := strconv.Atoi(s); return v }
 func childMain(args []string) {
 	tier, k, n, from := args[0], atoi(args[1]), atoi(args[2]), atoi(args[3])
 	debug.SetMemoryLimit(3 << 30)
+	debug.SetGCPercent(400)
+	runtime.GOMAXPROCS(2) // single-threaded work; 8 children x 16 GC workers only thrash a shared machine
 	childSetup()
 	objs := objects(tier == "thorough")
 	w := bufio.NewWriterSize(os.Stdout, 1<<16)
@@ -422,6 +467,11 @@ func runMutations(r *ev.Run, k *checker) map[string]any {
 		for _, e := range byIdx[i] {
 			o := &objs[mc.obj]
 			name := o.c.name
+			if e.class == "note" && strings.HasPrefix(e.detail, "info:") { // informational outcome class, not a failure
+				r.Class(e.detail[5:])
+				k.count(name, e.detail[5:])
+				continue
+			}
 			counts[e.class]++
 			r.Class("mutant_" + e.class)
 			k.count(name, "mutant_"+e.class)
@@ -439,12 +489,12 @@ func runMutations(r *ev.Run, k *checker) map[string]any {
 			}
 			g.count++
 			if len(g.samples) < 6 {
-				g.samples = append(g.samples, fmt.Sprintf("%s: %s (%s)", o.label, mc.what, clip(e.detail)))
+				g.samples = append(g.samples, fmt.Sprintf("%s: %s (%s)", o.label, mc.what(), clip(e.detail)))
 			}
 			if g.input == nil || len(in) < len(g.input) {
 				g.input = append([]byte{}, in...)
 				g.desc = map[string]any{"type": name, "object": o.label, "object_value": describe(o.p.Elem()), "object_encoding": hexClip(o.b),
-					"mutation": mc.what, "input_hex": fmt.Sprintf("%x", clipN(in, 4096)), "input_len": len(in), "child_says": e.detail, "innermost_repo_frame": e.frame,
+					"mutation": mc.what(), "input_hex": fmt.Sprintf("%x", clipN(in, 4096)), "input_len": len(in), "child_says": e.detail, "innermost_repo_frame": e.frame,
 					"how": "decoded by the real decoder in a child process under `ulimit -v 4000000`; panic = recovered runtime panic, fatal-oom = process killed by the Go runtime (not recoverable); there is no recover() on the transaction execution path"}
 			}
 		}
